@@ -119,6 +119,14 @@ func (e *Engine) VerifyFunc(key string) {
 			}
 		}
 	}
+	if ts != nil {
+		sc := fc.specCtxFor(st, fr)
+		for _, h := range ts.Hypotheses {
+			if g := fc.evalBoolClause(sc, h, ""); g != "" {
+				st.pc = append(st.pc, g)
+			}
+		}
+	}
 	fr.lets = map[string]Val{}
 	for _, l := range fc.eff.lets {
 		sc := fc.specCtxForClause(st, fr, l)
@@ -451,11 +459,30 @@ func (e *Engine) axiomText(fc *fnCtx, st *State, body string) string {
 	if len(e.contracts.Decls) == 0 && len(e.contracts.Axioms) == 0 {
 		return ""
 	}
-	if e.axCache == nil {
+	usesKey := ""
+	if fc.spec != nil {
+		usesKey = strings.Join(fc.spec.Uses, ",")
+	}
+	if e.axCache == nil || e.axCacheKey != usesKey {
 		e.axCache = map[string]*cachedAxiom{}
-		for _, a := range e.contracts.Axioms {
+		e.axCacheKey = usesKey
+		all := append([]*Axiom(nil), e.contracts.Axioms...)
+		for i, l := range e.contracts.Lemmas {
+			if e.lemmaLimit >= 0 {
+				if i < e.lemmaLimit {
+					all = append(all, l)
+				}
+				continue
+			}
+			for _, u := range strings.Split(usesKey, ",") {
+				if u == l.Name {
+					all = append(all, l)
+				}
+			}
+		}
+		for _, a := range all {
 			tmp := &State{env: map[ssa.Value]Val{}, names: map[string]Val{}, heap: map[string]string{}, now: "0"}
-			sc := &specCtx{fc: fc, st: tmp, heap: tmp.heap, now: "0", vars: map[string]Val{}, pkg: a.Pkg}
+			sc := &specCtx{fc: fc, st: tmp, heap: tmp.heap, now: "0", vars: map[string]Val{}, params: map[string]Val{}, pkg: a.Pkg}
 			func() {
 				defer func() {
 					if r := recover(); r != nil {
